@@ -249,6 +249,22 @@ def manifest_suite(ctx, env):
             s = models.Stream.get(directory='bbb')
             s.title = 'Big Buck Bunny'
             models.db.session.commit()
+        # xs:dateTime at the edges of the year range (a four-digit year is required; Python's own strftime does not pad)
+        for tmpl in templates:
+            for start in ('0001-01-01T00:00:00Z', '0099-06-01T00:00:00Z', '0900-01-01T00:00:00Z', '0999-12-31T23:59:59Z',
+                          '1000-01-01T00:00:00Z', '1969-12-31T23:59:59Z', '0900-01-01T00:00:00.500Z', '0900-01-01T01:00:00%2B01:00'):
+                url = '/dash/live/bbb/%s?start=%s' % (tmpl, start)
+                try:
+                    r = c.get(url)
+                except Exception as e:  # noqa
+                    ctx.dist('client-error:%s' % type(e).__name__)
+                    continue
+                ctx.count('http:manifest-year-range')
+                ctx.dist('status:%d' % r.status_code)
+                if r.status_code >= 500:
+                    ctx.violation('%s answers %d' % (url, r.status_code), {'url': url})
+                elif r.status_code == 200:
+                    check_doc(ctx, url, r.data, 'none', {'url': url, 'placement': 'none', 'hostile': '', 'headers': {}})
 
 
 def gen_sites(ctx):
